@@ -132,6 +132,9 @@ HllArray<A>* HllArray<A>::newHll(const void* bytes, size_t len, const A& allocat
   typedef std::unique_ptr<AuxHashMap<A>, std::function<void(AuxHashMap<A>*)>> aux_hash_map_ptr;
   aux_hash_map_ptr aux_ptr;
   if (auxCount > 0) { // necessarily TgtHllType == HLL_4
+    if (tgtHllType != HLL_4) {
+      throw std::invalid_argument("Aux count must be zero for target types other than HLL_4");
+    }
     uint8_t auxLgIntArrSize = data[4];
     const size_t offset = hll_constants::HLL_BYTE_ARR_START + arrayBytes;
     const uint8_t* auxDataStart = data + offset;
@@ -208,6 +211,9 @@ HllArray<A>* HllArray<A>::newHll(std::istream& is, const A& allocator) {
     throw std::runtime_error("error reading from std::istream");
   
   if (auxCount > 0) { // necessarily TgtHllType == HLL_4
+    if (tgtHllType != HLL_4) {
+      throw std::invalid_argument("Aux count must be zero for target types other than HLL_4");
+    }
     uint8_t auxLgIntArrSize = listHeader[4];
     AuxHashMap<A>* auxHashMap = AuxHashMap<A>::deserialize(is, lgK, auxCount, auxLgIntArrSize, comapctFlag, allocator);
     ((Hll4Array<A>*)sketch)->putAuxHashMap(auxHashMap);
